@@ -26,6 +26,7 @@ type VCheck struct {
 	SkipKnownC03 bool
 	// ScopedOnly: leave out unscoped lookups (the harness keeps a dataset the model does not know)
 	ScopedOnly bool
+	listCap    int // number of entities of the largest model dataset (bounds the page count of a listing)
 }
 
 func (c *VCheck) fail(clause string, what string, detail interface{}) {
@@ -77,8 +78,8 @@ func (c *VCheck) listAll(ds *Dataset, count int) ([]*Entity, int, error) {
 			return out, pages, fmt.Errorf("page of %d entities for count %d", len(res.Entities), count)
 		}
 		from = res.ContinuationToken
-		if pages > 40 {
-			return out, pages, fmt.Errorf("listing does not terminate (more than 40 pages for at most 4 entities)")
+		if pages > 40+c.listCap {
+			return out, pages, fmt.Errorf("listing does not terminate (more than %d pages for at most %d entities)", 40+c.listCap, 4+c.listCap)
 		}
 	}
 }
@@ -86,6 +87,11 @@ func (c *VCheck) listAll(ds *Dataset, count int) ([]*Entity, int, error) {
 // CheckLatest is the C01 oracle on the current state.
 func (c *VCheck) CheckLatest(ids []string) {
 	h := c.H
+	for _, md := range h.M.LiveInOrder() {
+		if n := len(md.Versions); n > c.listCap {
+			c.listCap = n
+		}
+	}
 	for _, md := range h.M.LiveInOrder() {
 		ds := h.W.Dsm.GetDataset(h.DsName(md.Name))
 		if ds == nil {
